@@ -63,6 +63,12 @@ def main(tier):
                   and any(m["f"].startswith("cfoot") for m in b["muts"])]
         behs = behs + slice_
         pairs_from = len(behs)
+    # a damaged compressed block (the reader is left in its error state) combined with any other mutation, histories of
+    # three operations: what the reader does AFTER an error, with offsets of the index pointing anywhere (seed C08-c)
+    rf = tlc("MCFaultGrammar", "FaultGrammar.focus.cfg", "c08-fgf", workers=1, timeout=3000, heap="12g")
+    ev["tlc"].append(dict(module="FaultGrammar", cfg="FaultGrammar.focus.cfg", generated=rf.generated, distinct=rf.distinct, violation=rf.violation))
+    focus = [b for b in rf.prints["REPLAY"] if len(b["muts"]) == 2]
+    behs = behs + focus
     res, scens = scenarios_from_writer("Writer.scen.cfg", "c08-scen")
     rich = [s for s in scens if len(s["files"]) >= 2 and any(len(i["offs"]) >= 2 for i in s["hid"]["info"])]
     # ... one archive with an empty file, and (compression) one whose plaintext stream ends exactly on a block edge
